@@ -19,6 +19,32 @@ CHECKS = {
          "z3 decides on every feasible path that the return value is 0 iff all bytes are zero and the access monitor shows every load lies inside [buf,buf+len). Bounded model checking of the real binaries.",
     note="Trusted: the interpreter's instruction semantics (cross-validated every run against native execution of the same objects), z3, nasm/ld/objdump. Lengths beyond the bound are outside the claim. "
          "Dispatcher selection is C16."),
+ "C16": dict(
+    engine="x86sym", category="model_checking", design_ref="DESIGN.md §5 C16, §4.5",
+    technique="symbolic execution of all 42 resolvers (machine code) with CPUID/XGETBV results as free bit-vectors; z3 decides path-condition => availability of every ISA extension used by the selected implementation and its callees",
+    text="Every <fn>_dispatch_init resolver is executed symbolically over fully symbolic CPUID leaves and XCR0; for each feasible path and each implementation it can store, z3 shows that no architecturally "
+         "consistent configuration reaches that choice while lacking an extension that the implementation's instructions (classified from their encoding) require; also XGETBV only under OSXSAVE, registers preserved, "
+         "only the dispatch cell written. Exhaustive over the configuration space within the stated consistency axioms.",
+    note="Trusted: ISA classification table (encoding class from instruction bytes, sub-feature from mnemonic), consistency axioms listed in the evidence (incl. AVX2=>BMI1/BMI2/LZCNT/MOVBE, SSE4.2=>POPCNT for bits no resolver examines), "
+         "objdump/nasm/gcc, z3. 'All choices agree' is covered only through C03/C04/C08/C13/C20."),
+ "C03": dict(
+    engine="x86sym + cbmc-c", category="translation_validation", design_ref="DESIGN.md §5 C03",
+    technique="symbolic execution of the assembled gf_Nvect_dot_prod kernels against a structural GF(2^8) table-lookup specification decided by z3; CBMC on ec_base.c and the ec_highlevel_func.c row-batching glue",
+    text="Each of the 33 assembled dot-product kernels (6 ISA flavours) is executed symbolically with all source, table and destination bytes symbolic for a sweep of lengths/source counts/alignments; z3 proves every stored byte "
+         "equals the XOR of table lookups, nothing else is written, loads stay inside the declared buffers. CBMC proves the portable functions equal the polynomial definition and that the glue hands every row to exactly one kernel call.",
+    note="Kernel = structural spec; table contents = field product is C12. Trusted: interpreter semantics (validated natively each run), z3, CBMC. Bounds: see evidence (len <= 4W+17, k <= 8)."),
+ "C13": dict(
+    engine="x86sym + cbmc-c", category="translation_validation", design_ref="DESIGN.md §5 C13",
+    technique="symbolic execution of the assembled gf_Nvect_mad and gf_vect_mul kernels against the multiply-accumulate specification decided by z3; CBMC on the base functions and update glue",
+    text="Each of the 35 assembled multiply-accumulate kernels and gf_vect_mul_{sse,avx} is executed symbolically (source, tables, initial parity symbolic): z3 proves dest' = dest ^ lookup(T[r*k+vec_i], src) bytewise, "
+         "nothing outside the parity blocks is written, failure returns store nothing. Order independence / cancellation follow from XOR-accumulation of per-source terms.",
+    note="As C03. Masked/overlapped tails are inside the swept lengths (every residue up to W+1 and around 2W, 3W)."),
+ "C08": dict(
+    engine="x86sym + cbmc-c", category="model_checking", design_ref="DESIGN.md §5 C08",
+    technique="symbolic execution of the assembled RAID kernels, z3 decides P/Q equality and check soundness+completeness on every path; CBMC on raid_base.c",
+    text="xor_gen/pq_gen kernels (7 objects): all data symbolic, z3 proves P = xor and Q = Horner/0x11D bytewise, sources read-only, aligned/non-temporal accesses legal. xor_check/pq_check: every feasible path, "
+         "z3 proves return==0 <=> parity-consistent (so any single-byte change is detected). Arguments below the documented minimum return non-zero with zero memory accesses.",
+    note="Trusted: interpreter semantics (validated natively each run), z3, CBMC. vects <= 8 (20 thorough), len <= 300/320 (640)."),
 }
 
 NOT_YET = {}
